@@ -83,11 +83,32 @@ def run(ctx):
                 if c["equiv_input"]:
                     stats["is_input"] += 1
                     L.append('static_assert(%s, "c%d is-an-input");' % (" || ".join("std::is_same<C%d, %s>::value" % (k, names[j - 1]) for j in c["equiv_input"]), k))
-            if n == 3:
+            # nesting: every way of splitting the list into inner common units (also inner packs that share a member) is quantity-equivalent
+            # to the flat common unit and still evenly divides every input
+            nests = []
+            if n >= 3:
+                nests.append("CommonUnitT<%s, CommonUnitT<%s>>" % (names[0], ", ".join(names[1:])))
+                nests.append("CommonUnitT<CommonUnitT<%s>, %s>" % (", ".join(names[:-1]), names[-1]))
+                for a in range(3):
+                    b, c2 = [x for x in range(3) if x != a]
+                    rest = "".join(", " + names[x] for x in range(3, n))
+                    nests.append("CommonUnitT<CommonUnitT<%s, %s>, CommonUnitT<%s, %s>%s>" % (names[a], names[b], names[a], names[c2], rest))
+                    nests.append("CommonUnitT<CommonUnitT<%s, %s>, CommonUnitT<%s, %s>%s>" % (names[a], names[c2], names[a], names[b], rest))
+            if n == 4:
+                nests.append("CommonUnitT<CommonUnitT<%s, %s>, CommonUnitT<%s, %s>>" % (names[0], names[1], names[2], names[3]))
+                nests.append("CommonUnitT<CommonUnitT<%s, %s, %s>, CommonUnitT<%s, %s>>" % (names[0], names[1], names[2], names[0], names[3]))
+            for q, nt in enumerate(nests):
                 stats["nesting"] += 1
-                L.append('static_assert(are_units_quantity_equivalent(CommonUnitT<%s, CommonUnitT<%s, %s>>{}, C%d{}), "c%d nesting");' % (names[0], names[1], names[2], k, k))
+                L.append('static_assert(are_units_quantity_equivalent(%s{}, C%d{}), "c%d nesting-%d");' % (nt, k, k, q))
+                if c["rational"]:
+                    L.append('static_assert(unit_ratio(%s{}, %s{}) == (%s), "c%d nesting-cofactor-%d");' % (names[0], nt, mag_from_den(c["cof"][0]), k, q))
             if n == 2:
                 L.append('static_assert(std::is_same<typename std::common_type_t<Quantity<%s, int>, Quantity<%s, double>>::Unit, C%d>::value, "c%d quantity-common-type");' % (names[0], names[1], k, k))
+                # same rep on both sides, both orders; the operators' result units
+                L.append('static_assert(std::is_same<typename std::common_type_t<Quantity<%s, int>, Quantity<%s, int>>::Unit, C%d>::value, "c%d quantity-common-type-same-rep");' % (names[0], names[1], k, k))
+                L.append('static_assert(std::is_same<std::common_type_t<Quantity<%s, float>, Quantity<%s, float>>, std::common_type_t<Quantity<%s, float>, Quantity<%s, float>>>::value, "c%d quantity-common-type-symmetric");' % (names[0], names[1], names[1], names[0], k))
+                L.append('static_assert(std::is_same<decltype(Quantity<%s, double>{} + Quantity<%s, double>{}), decltype(Quantity<%s, double>{} + Quantity<%s, double>{})>::value, "c%d sum-type-symmetric");' % (names[0], names[1], names[1], names[0], k))
+                L.append('static_assert(std::is_same<typename decltype(Quantity<%s, double>{} - Quantity<%s, double>{})::Unit, C%d>::value, "c%d difference-unit");' % (names[0], names[1], k, k))
         L.append("int main() {}")
         return "\n".join(L) + "\n"
     byi = {c["i"]: c for c in cases}
